@@ -23,7 +23,7 @@ class C09(Prop):
                    "flatten/uniquify module-level counters are reset before each case",
                    "wf-core: reference sets may keep parent-less removed shell instances (public "
                    "remove_child behaviour)"]
-    N = {"quick": 2400, "thorough": 30000}
+    N = {"quick": 8000, "thorough": 80000}
 
     def cfg(self, tier):
         big = tier == "thorough"
